@@ -55,9 +55,14 @@ TStep ==
            IF Known(k) THEN /\ Finish(IF Dig(k) = e.dig THEN "" ELSE "PathIndependence") /\ UNCHANGED mean
            ELSE /\ mean' = mean \cup {[k |-> k, d |-> e.dig]} /\ Finish("")
      \/ /\ e.ev = "source" /\ Source(e.t) /\ UNCHANGED <<mean, dref>>
-        /\ Finish(IF e.dig = SrcDig(last'.val) THEN "" ELSE "source:not-as-modelled")
+        /\ Finish(IF e.dig # SrcDig(last'.val) THEN "source:not-as-modelled"
+                  ELSE IF e.backing # last'.backing THEN "source:backing-not-as-modelled"
+                  ELSE IF last'.val # "KeyError" /\ e.truth # "ok" THEN "OwnSource:" \o e.truth ELSE "")
      \/ /\ e.ev = "code" /\ Code(e.t) /\ UNCHANGED <<mean, dref>>
-        /\ Finish(IF e.owner # last'.val THEN "code:not-as-modelled" ELSE IF e.cls # "ok" THEN "OwnCode:" \o e.cls ELSE "")
+        /\ Finish(IF e.owner # last'.val THEN "code:not-as-modelled"
+                  ELSE IF e.cls # "ok" THEN "OwnCode:" \o e.cls
+                  ELSE IF e.backing # last'.backing THEN "code:backing-not-as-modelled"
+                  ELSE IF e.truth # "ok" THEN "OwnCode:" \o e.truth ELSE "")     \* compared with the per-path ground truth
      \/ /\ e.ev = "defs" /\ Defs(e.t) /\ UNCHANGED mean
         /\ IF dref = "" THEN dref' = e.dig /\ Finish("")
            ELSE UNCHANGED dref /\ Finish(IF e.dig = dref THEN "" ELSE "DefsAgree")
